@@ -18,7 +18,7 @@ ID = 'C03'
 LEVEL = 'exploration'
 CAP = 10000
 RULE = ('Hypothesis sequences (3-30 steps) over templates for push, insert, index and compound index assignment (new/'
-        'existing key or index), +, +=, *=, nested growth, doubling chains, slices, map/filter/sorted/reversed/enumerate/'
+        'existing key or index; also with surplus arguments), +, +=, *= (also through one node first evaluated with numbers), nested growth, doubling chains, slices, map/filter/sorted/reversed/enumerate/'
         'keys/values/items/split/match_all/join/dict/list, string growth followed by list-producing builtins; host list/'
         'dict lengths drawn from {0,1,5,9998,9999,10000,10001}, host strings up to 12000 chars, dict keys strings or ints; '
         '1 case in 7 returns a lambda that the host calls 1-3 times after eval() has returned. '
@@ -248,7 +248,9 @@ def run_case(case):
 
 
 # ------------------------------------------------------------------------------------------------ generation
-LIST_STEPS = ['T = enumerate([1, 2])[0]', 'T = T + T', 'T += T', 'T = T + HT', 'T = HT + HT', 'L = reversed(T)', 'L = sorted(T)', 'L = enumerate(T)',
+LIST_STEPS = ['f = (a, b) => a + b\nf(K2, K3)\nL = f(L, L)', 'L = reduce([1, 2, L, L], (a, b) => b if a == 3 else a + b)', 'M = map([[1, 2], [L, L]], p => p[0] + p[1])\nL = M[1]',
+              'Q = K2\nQ = Q + Q\nQ = L\nQ = Q + Q\nL = Q', 'L.push({v}, {v}, {v})', 'push(L, 1, 2)', 'insert(L, 0, {v}, {v})', 'L.insert(0, 1, 2, 3)', 'L | push(1, 2, 3, 4)',
+              'T = enumerate([1, 2])[0]', 'T = T + T', 'T += T', 'T = T + HT', 'T = HT + HT', 'L = reversed(T)', 'L = sorted(T)', 'L = enumerate(T)',
               'L = reversed(HT + HT)', 'T = items(DN)[0]\nT += T', 'L = L + {v}', 'L = L + None', 'L = L + True', 'L = (L + 1) + 2', 'L = L + {{}}', 'L = rand(L, 25000)', 'L = rand([0], 1000000)', 'L *= K2', 'L = L * K2', 'L *= K3', 'M = [1, 2, 3]\nM *= K3\nM *= K3', 'L *= KT', 'L.push({v})', 'push(L, {v})', 'L.insert({i}, {v})', 'L[{i}] = {v}', 'L[{i}] += {v}', 'L = L + L', 'L += L',
               'L = L + [{v}, {v}]', 'L += [{v}]', 'L *= 2', 'L = L * 2', 'L += HL', 'L = HL + L', 'M = L', 'M += L',
               'M.push({v})', 'L += "{w}"', 'L += {{"p": 1, "q": 2}}', 'L = L[:]', 'L = L[1:] + L', 'L = reversed(L)',
